@@ -116,6 +116,38 @@ func (s *memStore) GetUint64(k []byte) (uint64, error) {
 	return v, nil
 }
 
+// faultStable lets one call of a stable store fail (without effect) or cancel
+// the context.
+type faultStable struct {
+	inner  raft.StableStore
+	onCall func(what string) error
+}
+
+func (f *faultStable) Set(k, v []byte) error {
+	if err := f.onCall("Set"); err != nil {
+		return err
+	}
+	return f.inner.Set(k, v)
+}
+func (f *faultStable) Get(k []byte) ([]byte, error) {
+	if err := f.onCall("Get"); err != nil {
+		return nil, err
+	}
+	return f.inner.Get(k)
+}
+func (f *faultStable) SetUint64(k []byte, v uint64) error {
+	if err := f.onCall("SetUint64"); err != nil {
+		return err
+	}
+	return f.inner.SetUint64(k, v)
+}
+func (f *faultStable) GetUint64(k []byte) (uint64, error) {
+	if err := f.onCall("GetUint64"); err != nil {
+		return 0, err
+	}
+	return f.inner.GetUint64(k)
+}
+
 // seamStore makes every call on a store a yield point, a cancellation point
 // and an error-fault point.
 type seamStore struct {
@@ -511,9 +543,33 @@ func (c *c19) runStable(logf func(string, ...interface{})) {
 	if pre {
 		cancel()
 	}
-	c.sig = append(c.sig, "stable", fmt.Sprint(len(extra), len(extraInt), pre))
-	err := migrate.CopyStable(ctx, dst, src, extra, extraInt, progress)
-	logf("CopyStable extra=%d extraInt=%d precancel=%v -> %v", len(extra), len(extraInt), pre, err)
+	// one store call (source read or destination write) fails without effect, or
+	// the context is cancelled during it
+	calls, injected, cancelledAt := 0, false, 0
+	mode := tp.Choose(4) // 0,1 = plain; 2 = error at call k; 3 = cancel at call k
+	k := 1 + tp.Choose(2*(len(want)+len(wantU))+2)
+	onCall := func(what string) error {
+		calls++
+		if calls != k || pre {
+			return nil
+		}
+		switch mode {
+		case 2:
+			injected = true
+			c.fired.Add("stable_error_at_"+what, 1)
+			return &InjectedError{Call: what, Err: syscall.EIO}
+		case 3:
+			cancelledAt = calls
+			cancel()
+			c.fired.Add("stable_cancel_at_"+what, 1)
+		}
+		return nil
+	}
+	fsrc := &faultStable{inner: src, onCall: onCall}
+	fdst := &faultStable{inner: dst, onCall: onCall}
+	c.sig = append(c.sig, "stable", fmt.Sprint(len(extra), len(extraInt), pre, mode))
+	err := migrate.CopyStable(ctx, fdst, fsrc, extra, extraInt, progress)
+	logf("CopyStable extra=%d extraInt=%d precancel=%v mode=%d k=%d -> %v (calls=%d)", len(extra), len(extraInt), pre, mode, k, err, calls)
 	if progress != nil {
 		closed := false
 		for i := 0; i < 200; i++ {
@@ -540,10 +596,21 @@ func (c *c19) runStable(logf func(string, ...interface{})) {
 		}
 		return
 	}
+	if err != nil && cancelledAt != 0 {
+		if !errors.Is(err, context.Canceled) {
+			c.violate("cancel-error", "stable-cancel-wrong-error", "CopyStable cancelled during call %d returned %v", cancelledAt, err)
+		}
+		return
+	}
+	if err != nil && injected {
+		c.probes.Add("stable_error_reported", 1)
+		return
+	}
 	if err != nil {
 		c.violate("copy-faithful", "stable-copy-failed", "CopyStable failed: %v", err)
 		return
 	}
+	// a nil return means every key was transferred - whatever happened on the way
 	for k, v := range want {
 		got, _ := dst.Get([]byte(k))
 		if string(got) != v {
